@@ -124,6 +124,7 @@ def postconditions(inp, q, x0, hx, warned):
         ds = [c - abs(q["distance"][0]), c + abs(q["distance"][1])]
     else:
         ds = [float(vec.min()), float(vec.max())]
+    ds_user = list(ds)      # the vector is trimmed to the domain as given
     sea = q["seasurface"]
     if sea is not None:
         ds[1] = max(ds[1], sea)
@@ -169,7 +170,7 @@ def postconditions(inp, q, x0, hx, warned):
     # nodes of a provided vector inside the domain are nodes of the mesh
     post["vector"] = True
     if vec is not None:
-        inside = vec[(vec >= ds[0]) & (vec <= ds[1])]
+        inside = vec[(vec >= ds_user[0]) & (vec <= ds_user[1])]
         if inside.size >= 3:     # documented: at least two cells in the domain
             post["vector"] = bool(all(np.min(np.abs(nodes - v)) <= tol
                                       for v in inside))
@@ -387,7 +388,18 @@ def gen_inputs(rng, n):
                 v = c + w*np.arange(-k0, k1+1)
                 if rng.random() < 0.3:
                     v = c + 7.0 + w*np.arange(-k0, k1+1)   # centre off-node
+                if rng.random() < 0.4:
+                    # non-uniform node vector (as taken from a model grid)
+                    ws = [w*rng.choice([0.5, 1.0, 1.0, 1.5, 2.0])
+                          for _ in range(k0 + k1)]
+                    v = c - sum(ws[:k0]) + np.r_[0.0, np.cumsum(ws)]
                 vec[d] = v
+                if kinds[d] == "both" and rng.random() < 0.5 and v.size >= 7:
+                    # survey domain limited by nodes of that vector, with
+                    # further vector nodes outside of it
+                    i0 = rng.randint(1, 2)
+                    i1 = v.size - 1 - rng.randint(1, 2)
+                    dom[d] = [float(v[i0]), float(v[i1])]
         fmt = rng.choice(["tuple", "dict"])
 
         def pack(v3):
